@@ -239,7 +239,7 @@ static void p0_run(uint64_t idx, vh_rng_t * rng) {
     static vh_buf_t msg;
     vh_ctx_t * v; int i, j, consumed = 0, fail = 0, exp_codes[3], nexp = 0, exp_any_of = 0, want_err = 0;
     int step_expect[VH_MAX_STEPS]; /* 1 ok, 0 fail, 2 absent, -1 unknown */ int step_item[VH_MAX_STEPS];
-    int unknown = 0; char key[160]; const char * q = "";
+    int unknown = 0; char key[160]; const char * q = ""; size_t termlen = 1;
     scpi_bool_t ret; const vh_inv_t * inv;
     (void) idx;
     active_tab = (int) vh_below(rng, 2);
@@ -258,7 +258,7 @@ static void p0_run(uint64_t idx, vh_rng_t * rng) {
     }
     vh_buf_reset(&msg);
     build_unit(rng, &msg, vh_chance(rng, 1, 6) ? "cmd" : "CMD");
-    vh_buf_adds(&msg, vh_chance(rng, 1, 5) ? "\r\n" : "\n");
+    { int crlf = vh_chance(rng, 1, 5); vh_buf_adds(&msg, crlf ? "\r\n" : "\n"); termlen = crlf ? 2 : 1; }
     vh_case_desc("unit %s", vh_esc(msg.p, msg.len));
     for (i = 0; i + 1 < NI; i++) if (I[i].ws_after && I[i].type == IT_DEC) q = ":ws-between-decimal-and-comma";
 
@@ -290,7 +290,10 @@ static void p0_run(uint64_t idx, vh_rng_t * rng) {
     if (active_tab) { v->ctx->units = units_b; vh_count("units.application_table", 1); }
     /* a client that disconnected in mid-message left complete units and a partial one pending; the application discards them (device clear) */
     if (idx % 7 == 3) { static const char pend[] = "NOOP;CMD 1,2;NO"; vh_input(v, pend, 1 + vh_below(rng, sizeof pend - 1)); vh_device_clear(v); vh_ctx_clear_capture(v); vh_count("history.pending_input_discarded_by_the_application", 1); }
-    ret = vh_input(v, msg.p, msg.len);
+    /* the unit ends with its terminator, with a zero-length (flush) call, or with a flush call after travelling behind an empty line in the
+     * same input call; the return value judged below is that of the call which executed the message */
+    { int how = (int) (vh_hash(msg.p, msg.len, 11) % 6u); how = how == 4 ? 1 : how == 5 ? 2 : 0; if (how) vh_count(how == 1 ? "delivery.unit_ended_by_flush" : "delivery.unit_behind_an_empty_line_then_flush", 1);
+      ret = vh_deliver(v, msg.p, msg.len, termlen, how); }
     vh_eval(1);
     inv = v->ninv ? &v->inv[0] : NULL;
 
